@@ -67,26 +67,41 @@ def _axes_of(c):
     return None
 
 
-def axes_not_validated(c):
+def _axis_defect(c):
+    """Kind of invalid axis argument: 'oor' (out of range), 'count' (wrong number of axes), 'dup' (duplicates), or None."""
     r = _axes_of(c)
-    if r is None: return False
+    if r is None: return None
     axes, d, nodup = r
-    if any(x < -d or x >= d for x in axes): return True
-    if c["op"] == "transpose" and len(axes) != d: return True
+    if any(x < -d or x >= d for x in axes): return "oor"
+    if c["op"] == "transpose" and len(axes) != d: return "count"
     if c["op"] == "moveaxis":
         a = c["args"]
-        return len({x % d for x in a["src"]}) != len(a["src"]) or len({x % d for x in a["dst"]}) != len(a["dst"])
+        return "dup" if len({x % d for x in a["src"]}) != len(a["src"]) or len({x % d for x in a["dst"]}) != len(a["dst"]) else None
     norm = [x % d for x in axes]
-    return nodup and len(set(norm)) != len(norm)
+    return "dup" if nodup and len(set(norm)) != len(norm) else None
+
+
+# the (operation, kind of invalid axis argument) pairs the library does not reject on the unchanged tree; every other pair
+# (moveaxis and roll with an out-of-range axis, ...) is rejected today and must stay rejected
+UNVALIDATED = {("transpose", "oor"), ("transpose", "count"), ("transpose", "dup"), ("moveaxis", "dup"), ("swapaxes", "oor"), ("expand_dims", "oor"), ("expand_dims", "dup"),
+               ("flip", "oor"), ("take", "oor"), ("repeat", "oor"), ("compress", "oor"), ("concatenate", "oor"), ("stack", "oor")}
+
+
+def axes_invalid(c):
+    return _axis_defect(c) is not None
+
+
+def axes_not_validated(c):
+    return (c["op"], _axis_defect(c)) in UNVALIDATED
 
 
 def join_shape_mismatch(c):
-    return c["op"] in ("concatenate", "stack", "hstack", "vstack", "dstack", "column_stack") and not axes_not_validated(c)
+    return c["op"] in ("concatenate", "stack", "hstack", "vstack", "dstack", "column_stack") and not axes_invalid(c)
 
 
 def repeat_length_mismatch(c):
     a = c["args"]
-    return c["op"] == "repeat" and not a["scalar"] and not axes_not_validated(c)
+    return c["op"] == "repeat" and not a["scalar"] and not axes_invalid(c)
 
 
 PREDS = dict(c15_axes_not_validated=axes_not_validated, c15_join_shape_mismatch=join_shape_mismatch, c15_repeat_length_mismatch=repeat_length_mismatch)
